@@ -187,4 +187,401 @@ theorem advance_abs (pj : PJ) (i : Iter) (hl : i.lim ≤ pj.tape.size) (e : Env)
     | error e => rw [hg] at hloop; exact hloop.elim
     | diverge => rw [hg] at hloop; exact hloop.elim
 
+
+/-! ## calling `Advance` on a local iterator -/
+
+theorem dotField (pfx f : String) : pfx ++ "." ++ f = pfx ++ ("." ++ f) := String.append_assoc
+
+/-- `t = pfx.Advance()` through `callFun`, from any caller that holds the iterator `pfx` and the two buffers: the callee
+    runs on the frame `envOf "i" i ++ bufEnv pj`; fields and buffers come back -/
+theorem callFun_advance (pj : PJ) (s : St) (pfx : String) (i : Iter) (f : Nat) (hl : i.lim ≤ pj.tape.size)
+    (ht : s.tape = pj.tape) (hI : iterAt s.env pfx = some i)
+    (hS : s.env.get "Strings.B" = some (.bytes pj.strings)) (hM : s.env.get "Message" = some (.bytes pj.msg))
+    (hf : i.lim + 3 ≤ f) :
+    match i.advance pj with
+    | .ok (i', t) => callFun goFuns f pfx "Iter.Advance" [] [] s =
+        .ret ⟨((setIter s.env pfx i').set "Strings.B" (.bytes pj.strings)).set "Message" (.bytes pj.msg), pj.tape⟩
+          [.u8 t]
+    | .panic => callFun goFuns f pfx "Iter.Advance" [] [] s = .panic
+    | _ => False := by
+  obtain ⟨g1, g2, g3, g4, g5⟩ := iterAt_get _ _ _ hI
+  have hI0 : iterAt (envOf "i" i ++ bufEnv pj) "i" = some i := by simp [envOf, bufEnv, Env.get, iterAt]
+  have he := advance_abs pj i hl (envOf "i" i ++ bufEnv pj) hI0 f hf
+  have hS0 : (envOf "i" i ++ bufEnv pj).get "Strings.B" = some (.bytes pj.strings) := by simp [envOf, bufEnv, Env.get]
+  have hM0 : (envOf "i" i ++ bufEnv pj).get "Message" = some (.bytes pj.msg) := by simp [envOf, bufEnv, Env.get]
+  cases hr : i.advance pj with
+  | ok r =>
+    obtain ⟨i', t⟩ := r
+    rw [hr] at he
+    obtain ⟨e', hx, hI', hF⟩ := he
+    obtain ⟨k1, k2, k3, k4, k5⟩ := iterAt_get_i _ _ hI'
+    have hS' : e'.get "Strings.B" = some (.bytes pj.strings) := by rw [hF _ (by decide), hS0]
+    have hM' : e'.get "Message" = some (.bytes pj.msg) := by rw [hF _ (by decide), hM0]
+    simp only [envOf, bufEnv, List.cons_append, List.nil_append, String.reduceAppend, goIter_Advance] at hx
+    simp only []
+    rw [callFun]
+    simp [goFuns, goIter_Advance, dotField, g1, g2, g3, g4, g5, hS, hM, copyPtrs, copyGlobals, globalVars, copyPtrsBack,
+      Env.set, Env.get, -exec, -exec1, ht]
+    rw [hx]
+    simp [k1, k2, k3, k4, k5, hS', hM', copyGlobals, globalVars, setIter, dotField, copyPtrsBack]
+  | panic =>
+    rw [hr] at he
+    simp only [AdvPost] at he
+    simp only [envOf, bufEnv, List.cons_append, List.nil_append, String.reduceAppend, goIter_Advance] at he
+    simp only []
+    rw [callFun]
+    simp [goFuns, goIter_Advance, dotField, g1, g2, g3, g4, g5, hS, hM, copyPtrs, copyGlobals, globalVars, copyPtrsBack,
+      Env.set, Env.get, -exec, -exec1, ht]
+    rw [he]
+  | error e => rw [hr] at he; exact he.elim
+  | diverge => rw [hr] at he; exact he.elim
+
+/-! ## `Iter.PeekNext` on any store, and called on a local iterator -/
+
+theorem peekNext_abs (pj : PJ) (i : Iter) (hl : i.lim ≤ pj.tape.size) (e : Env) (hI0 : iterAt e "i" = some i)
+    (fuel : Nat) (hf : i.lim + 1 ≤ fuel) :
+    SimV pj.tape i (exec goFuns fuel goIter_PeekNext.body ⟨e, pj.tape⟩) (i.peekNext pj) := by
+  have hbody : goIter_PeekNext.body = [.assign "off" (.bin .add (.v "i.off") (.v "i.addNext")),
+      .loop (firstLoop goIter_PeekNext.body)] := rfl
+  obtain ⟨g1, g2, g3, g4, g5⟩ := iterAt_get_i _ _ hI0
+  have h1 : exec1 goFuns fuel (.assign "off" (.bin .add (.v "i.off") (.v "i.addNext"))) ⟨e, pj.tape⟩ =
+      .normal ⟨e.set "off" (.int ((i.off : Int) + i.addNext)), pj.tape⟩ := by
+    simp [g1, g2]
+  have hI : iterAt (e.set "off" (.int ((i.off : Int) + i.addNext))) "i" = some i := by
+    simp (disch := decide) only [iterAt_set_ne, hI0]
+  have hloop : SimV pj.tape i (exec1 goFuns fuel (.loop (firstLoop goIter_PeekNext.body))
+      ⟨e.set "off" (.int ((i.off : Int) + i.addNext)), pj.tape⟩) (i.peekNext pj) := by
+    unfold Iter.peekNext Iter.peekNextTag Iter.bump
+    by_cases ho : (i.off : Int) + i.addNext < 0
+    · obtain ⟨f, rfl⟩ : ∃ f, fuel = f + 1 := ⟨fuel - 1, by omega⟩
+      have hlim := (iterAt_get _ "i" i hI).2.2.2.2
+      simp only [String.reduceAppend] at hlim
+      rw [exec1, peek_body_neg _ pj.tape f _ i.lim ho (Env.get_set_self _ _ _) hlim]
+      simp [ho, SimV]
+    · simp only [ho, if_false, Res.bind_ok]
+      have := peek_loop pj i hl i.lim ((i.off : Int) + i.addNext).toNat fuel _ (by omega) (by omega) hI
+        (by rw [Env.get_set_self, Int.toNat_of_nonneg (by omega)])
+      exact this
+  rw [hbody, exec, h1]
+  simp only []
+  rw [exec_cons_final _ _ _ _ _ hloop.final]
+  exact hloop
+
+/-- `return pfx.PeekNext()` through `callFun` -/
+theorem callFun_peekNext (pj : PJ) (s : St) (pfx : String) (i : Iter) (f : Nat) (hl : i.lim ≤ pj.tape.size)
+    (ht : s.tape = pj.tape) (hI : iterAt s.env pfx = some i)
+    (hS : s.env.get "Strings.B" = some (.bytes pj.strings)) (hM : s.env.get "Message" = some (.bytes pj.msg))
+    (hf : i.lim + 1 ≤ f) :
+    match i.peekNext pj with
+    | .ok t => ∃ e', callFun goFuns f pfx "Iter.PeekNext" [] [] s = .ret ⟨e', pj.tape⟩ [.u8 t]
+    | .panic => callFun goFuns f pfx "Iter.PeekNext" [] [] s = .panic
+    | _ => False := by
+  obtain ⟨g1, g2, g3, g4, g5⟩ := iterAt_get _ _ _ hI
+  have hI0 : iterAt (envOf "i" i ++ bufEnv pj) "i" = some i := by simp [envOf, bufEnv, Env.get, iterAt]
+  have he := peekNext_abs pj i hl (envOf "i" i ++ bufEnv pj) hI0 f hf
+  cases hr : i.peekNext pj with
+  | ok t =>
+    rw [hr] at he
+    obtain ⟨s', hx, hts, hI'⟩ := he
+    obtain ⟨k1, k2, k3, k4, k5⟩ := iterAt_get_i _ _ hI'
+    obtain ⟨e', t'⟩ := s'
+    simp only at hts k1 k2 k3 k4 k5
+    subst hts
+    simp only [envOf, bufEnv, List.cons_append, List.nil_append, String.reduceAppend, goIter_PeekNext] at hx
+    simp only []
+    rw [callFun]
+    simp [goFuns, goIter_PeekNext, dotField, g1, g2, g3, g4, g5, hS, hM, copyPtrs, copyGlobals, globalVars,
+      copyPtrsBack, Env.set, Env.get, -exec, -exec1, ht]
+    rw [hx]
+    simp [k1, k2, k3, k4, k5, copyGlobals, globalVars, copyPtrsBack]
+  | panic =>
+    rw [hr] at he
+    simp only [SimV] at he
+    simp only [envOf, bufEnv, List.cons_append, List.nil_append, String.reduceAppend, goIter_PeekNext] at he
+    simp only []
+    rw [callFun]
+    simp [goFuns, goIter_PeekNext, dotField, g1, g2, g3, g4, g5, hS, hM, copyPtrs, copyGlobals, globalVars,
+      copyPtrsBack, Env.set, Env.get, -exec, -exec1, ht]
+    rw [he]
+  | error e => rw [hr] at he; exact he.elim
+  | diverge => rw [hr] at he; exact he.elim
+
+/-! ## entry stores -/
+
+/-- what the store holds when a method of the `Array`/`Object` `r` is entered: the receiver and the two buffers -/
+structure RecvIn (pj : PJ) (r : String) (v : View) (e : Env) : Prop where
+  off : e.get (r ++ ".off") = some (.int v.off)
+  lim : e.get (r ++ ".lim") = some (.int v.lim)
+  sb : e.get "Strings.B" = some (.bytes pj.strings)
+  ms : e.get "Message" = some (.bytes pj.msg)
+
+/-! ## the NOP fill loop of `DeleteElems`, run by the interpreter
+
+`for x := startO; x < end; x++ { b.tape.Tape[x] = Nop<<56 | skip; skip-- }` — the index is checked against the view of the
+iterator `b` (`b.lim`): this is `Iter.nopFillV b.lim`, not `Iter.nopFill`. -/
+
+/-- the loop as printed (checked against the generated trees in `GoDelete`, where the statement must match) -/
+def fillLoop (x b : String) (init : List Stmt) : Stmt :=
+  .forc init (.bin .lt (.v x) (.v "end")) [.assign x (.bin .add (.v x) (.int 1))] [
+    .tapeSet b (.v x) (.bin .or (.bin .shl (.conv .u64 (.u8 78 /- TagNop -/)) (.int 56)) (.v "skip")),
+    .assign "skip" (.bin .sub (.v "skip") (.u64 1))]
+
+theorem ofNat_pred (n : Nat) (h : 0 < n) : UInt64.ofNat n - 1 = UInt64.ofNat (n - 1) := by
+  obtain ⟨m, rfl⟩ : ∃ m, n = m + 1 := ⟨n - 1, by omega⟩
+  apply UInt64.toNat_inj.mp
+  simp [UInt64.toNat_sub]
+
+theorem fill_run (x b : String) (lim hi : Nat) (hx1 : x ≠ "end") (hx2 : x ≠ "skip") (hx3 : x ≠ b ++ ".lim")
+    (hb1 : "skip" ≠ b ++ ".lim") :
+    ∀ (n j : Nat) (tape : Array UInt64) (e : Env) (fuel : Nat), hi - j ≤ n → n + 1 ≤ fuel →
+      e.get x = some (.int j) → e.get "end" = some (.int hi) → e.get "skip" = some (.u64 (UInt64.ofNat (hi - j))) →
+      e.get (b ++ ".lim") = some (.int lim) →
+      match Iter.nopFillV lim tape j hi with
+      | .ok t' => ∃ e', exec1 goFuns fuel (fillLoop x b []) ⟨e, tape⟩ = .normal ⟨e', t'⟩ ∧
+          ∀ k, k ≠ x → k ≠ "skip" → e'.get k = e.get k
+      | .panic => exec1 goFuns fuel (fillLoop x b []) ⟨e, tape⟩ = .panic
+      | _ => False := by
+  have hx1' : ¬ "end" = x := fun h => hx1 h.symm
+  have hx2' : ¬ "skip" = x := fun h => hx2 h.symm
+  intro n
+  induction n with
+  | zero =>
+    intro j tape e fuel h1 h2 gx ge gs gl
+    obtain ⟨f, rfl⟩ : ∃ f, fuel = f + 1 := ⟨fuel - 1, by omega⟩
+    have hj : ¬ j < hi := by omega
+    have hj' : ¬ ((j : Int) < hi) := by omega
+    rw [nopFillV_ge _ _ _ _ hj]
+    refine ⟨e, ?_, fun _ _ _ => rfl⟩
+    simp [fillLoop, gx, ge, hj']
+  | succ n ih =>
+    intro j tape e fuel h1 h2 gx ge gs gl
+    obtain ⟨f, rfl⟩ : ∃ f, fuel = f + 1 := ⟨fuel - 1, by omega⟩
+    by_cases hj : j < hi
+    · have hj' : ((j : Int) < hi) := by omega
+      rw [nopFillV_lt _ _ _ _ hj]
+      by_cases hb : j < lim ∧ j < tape.size
+      · rw [wrV_ok _ _ _ _ hb.1 hb.2]
+        simp only [Res.bind_ok]
+        have := ih (j + 1) (tape.set j (mkWord tagNop (UInt64.ofNat (hi - j))) hb.2)
+          (((e.set "skip" (.u64 (UInt64.ofNat (hi - (j + 1))))).set x (.int ((j + 1 : Nat) : Int)))) f
+          (by omega) (by omega) (by simp) (by simp [hx1, hx1', ge]) (by simp [hx2, hx2']) (by simp [hx3, hb1, gl])
+        revert this
+        cases Iter.nopFillV lim (tape.set j (mkWord tagNop (UInt64.ofNat (hi - j))) hb.2) (j + 1) hi with
+        | ok t' =>
+          rintro ⟨e', he, hfr⟩
+          refine ⟨e', ?_, ?_⟩
+          · simp only [fillLoop] at he
+            simp [fillLoop, gx, ge, gs, gl, hj', hb, hx2', hx3, hb1, ofNat_pred _ (Nat.sub_pos_of_lt hj)]
+            simp [mkWord, tagNop, Nat.sub_add_eq] at he
+            exact he
+          · intro k k1 k2
+            rw [hfr k k1 k2, Env.get_set_ne _ _ (Ne.symm k1), Env.get_set_ne _ _ (Ne.symm k2)]
+        | panic =>
+          intro he
+          simp only [fillLoop] at he
+          simp [fillLoop, gx, ge, gs, gl, hj', hb, hx2', hx3, hb1, ofNat_pred _ (Nat.sub_pos_of_lt hj)]
+          simp [mkWord, tagNop, Nat.sub_add_eq] at he
+          exact he
+        | error _ => exact fun h => h
+        | diverge => exact fun h => h
+      · rw [wrV_panic _ _ _ _ (by omega)]
+        simp only [Res.bind_panic]
+        simp [fillLoop, gx, ge, gs, gl, hj', hb, hx2', hx3, hb1]
+    · have hj' : ¬ ((j : Int) < hi) := by omega
+      rw [nopFillV_ge _ _ _ _ hj]
+      refine ⟨e, ?_, fun _ _ _ => rfl⟩
+      simp [fillLoop, gx, ge, hj']
+
+/-! ## the model's `advance`: every live step moves the cursor forward -/
+
+theorem advanceLoop_facts (pj : PJ) : ∀ (n : Nat) (i : Iter) (off : Nat), i.lim - off ≤ n →
+    ∀ (i' : Iter) (b : Bool), Iter.advanceLoop pj i off = .ok (i', b) →
+      i'.lim = i.lim ∧ (b = true → off < i'.off ∧ i'.off ≤ i.lim ∧
+        ∃ w, pj.tape[i'.off - 1]? = some w ∧ i'.t = tagOf w ∧ i'.cur = payloadOf w ∧ tagOf w ≠ tagNop) := by
+  intro n
+  induction n with
+  | zero =>
+    intro i off hn i' b h
+    rw [Iter.advanceLoop.eq_1 pj i off] at h
+    have hge : off ≥ i.lim := by omega
+    simp only [hge, dif_pos, Res.ok.injEq, Prod.mk.injEq] at h
+    obtain ⟨rfl, rfl⟩ := h
+    exact ⟨rfl, fun h => by cases h⟩
+  | succ n ih =>
+    intro i off hn i' b h
+    rw [Iter.advanceLoop.eq_1 pj i off] at h
+    by_cases hge : off ≥ i.lim
+    · simp only [hge, dif_pos, Res.ok.injEq, Prod.mk.injEq] at h
+      obtain ⟨rfl, rfl⟩ := h
+      exact ⟨rfl, fun h => by cases h⟩
+    · simp only [hge, dif_neg, not_false_eq_true, Iter.rdT, rd] at h
+      cases hr : pj.tape[off]? with
+      | none => rw [hr] at h; cases h
+      | some v =>
+        rw [hr] at h
+        simp only [Res.bind_ok] at h
+        by_cases hn' : tagOf v = tagNop
+        · by_cases hz : payloadOf v = 0
+          · simp [hn', hz, Iter.moveToEnd] at h
+            obtain ⟨rfl, rfl⟩ := h
+            exact ⟨rfl, fun h => by cases h⟩
+          · have hz' := payload_toNat_ne v hz
+            simp only [hn', hz, beq_self_eq_true, if_true, beq_iff_eq, if_false] at h
+            obtain ⟨k1, k2⟩ := ih _ _ (by simp only; omega) i' b h
+            refine ⟨k1, fun hb => ?_⟩
+            obtain ⟨a, c, d⟩ := k2 hb
+            exact ⟨by omega, c, d⟩
+        · have hb : (tagOf v == tagNop) = false := by simp [hn']
+          simp only [hb, Bool.false_eq_true, if_false, Res.ok.injEq, Prod.mk.injEq] at h
+          obtain ⟨rfl, rfl⟩ := h
+          refine ⟨rfl, fun _ => ⟨by simp, by simp; omega, v, by simpa using hr, rfl, rfl, hn'⟩⟩
+
+/-- a step of `advance` that returns an element: where the cursor stands afterwards -/
+theorem advance_facts (pj : PJ) (i : Iter) (h0 : 0 ≤ i.addNext) (i' : Iter) (t : UInt8)
+    (h : i.advance pj = .ok (i', t)) (ht : t ≠ typeNone) :
+    i'.lim = i.lim ∧ i.off + i.addNext.toNat < i'.off ∧ i'.off ≤ i.lim ∧ 0 ≤ i'.addNext ∧
+      i.off + i.addNext.toNat < i.lim ∧ t = tagToType i'.t ∧
+      ∃ w, pj.tape[i'.off - 1]? = some w ∧ i'.t = tagOf w ∧ i'.cur = payloadOf w ∧ tagOf w ≠ tagNop ∧
+        i'.addNext = (Iter.calcNext { lim := i.lim, off := i'.off, addNext := 0, cur := payloadOf w, t := tagOf w }
+          false).addNext := by
+  unfold Iter.advance Iter.bump at h
+  have ho : ¬ ((i.off : Int) + i.addNext < 0) := by omega
+  simp only [ho, if_false, Res.bind_ok] at h
+  have hnat : ((i.off : Int) + i.addNext).toNat = i.off + i.addNext.toNat := by omega
+  rw [hnat] at h
+  cases hg : Iter.advanceLoop pj i (i.off + i.addNext.toNat) with
+  | ok r =>
+    obtain ⟨a, l⟩ := r
+    rw [hg] at h
+    simp only [Res.bind_ok] at h
+    obtain ⟨k1, k2⟩ := advanceLoop_facts pj _ i _ (Nat.le_refl _) a l hg
+    cases l with
+    | false =>
+      simp at h
+      exact absurd h.2.symm ht
+    | true =>
+      obtain ⟨p1, p2, w, p3, p4, p5, p6⟩ := k2 rfl
+      obtain ⟨c1, c2, c3, c4⟩ := calcNext_fields a false
+      simp only [Bool.not_true, Bool.false_eq_true, if_false] at h
+      by_cases hneg : (a.calcNext false).addNext < 0
+      · simp [hneg] at h
+        exact absurd h.2.symm ht
+      · simp only [hneg, if_false, Res.ok.injEq, Prod.mk.injEq] at h
+        obtain ⟨rfl, rfl⟩ := h
+        refine ⟨by rw [c1, k1], by rw [c2]; exact p1, by rw [c2]; exact p2, by omega, by omega, rfl,
+          w, by rw [c2]; exact p3, by rw [c4]; exact p4, by rw [c3]; exact p5, p6, ?_⟩
+        rw [c2]
+        congr 1
+        apply calcNext_congr <;> simp [k1, p4, p5]
+  | panic => rw [hg] at h; cases h
+  | error e => rw [hg] at h; cases h
+  | diverge => rw [hg] at h; cases h
+
+/-! ## stores of the loops: the local iterator, the buffers, the callback variables -/
+
+/-- the caller's store after `pfx.Advance()` -/
+def advEnv (e : Env) (pfx : String) (i' : Iter) (pj : PJ) : Env :=
+  ((setIter e pfx i').set "Strings.B" (.bytes pj.strings)).set "Message" (.bytes pj.msg)
+
+/-- the loops' invariant: the store holds the local iterator `pfx` and the document's buffers -/
+structure ItInv (pj : PJ) (pfx : String) (i : Iter) (e : Env) : Prop where
+  it : iterAt e pfx = some i
+  sb : e.get "Strings.B" = some (.bytes pj.strings)
+  ms : e.get "Message" = some (.bytes pj.msg)
+
+def itKeys (pfx : String) : List String := "Strings.B" :: "Message" :: fieldsOf pfx
+
+theorem ItInv.congr {pj : PJ} {pfx : String} {i : Iter} {e e' : Env} (h : ItInv pj pfx i e)
+    (hk : ∀ k, k ∈ itKeys pfx → e'.get k = e.get k) : ItInv pj pfx i e' := by
+  obtain ⟨h1, h2, h3⟩ := h
+  refine ⟨?_, ?_, ?_⟩
+  · rw [← h1]
+    exact iterAt_congr _ _ _ (fun k hk' => hk k (by simp [itKeys, hk']))
+  · rw [hk _ (by simp [itKeys]), h2]
+  · rw [hk _ (by simp [itKeys]), h3]
+
+theorem ItInv.set {pj : PJ} {pfx : String} {i : Iter} {e : Env} (h : ItInv pj pfx i e) (k : String) (x : Val)
+    (hk : k ∉ itKeys pfx) : ItInv pj pfx i (e.set k x) := by
+  apply h.congr
+  intro k' hk'
+  rw [Env.get_set_ne]
+  intro hh
+  subst hh
+  exact hk hk'
+
+theorem get_setIter_self (e : Env) (pfx : String) (j : Iter) (hd : (fieldsOf pfx).Nodup) :
+    iterAt (setIter e pfx j) pfx = some j := by
+  simp only [fieldsOf, List.nodup_cons, List.mem_cons, List.not_mem_nil, or_false, not_or, List.nodup_nil, and_true,
+    not_false_eq_true] at hd
+  obtain ⟨⟨a1, a2, a3, a4⟩, ⟨b1, b2, b3⟩, ⟨c1, c2⟩, d1⟩ := hd
+  apply iterAt_of_gets <;> simp [setIter, Env.get_set, *]
+  all_goals (first | exact fun h => absurd h.symm ‹_› | skip)
+
+theorem ItInv.adv {pj : PJ} {pfx : String} {i : Iter} {e : Env} (h : ItInv pj pfx i e) (i' : Iter)
+    (hd : (fieldsOf pfx).Nodup) (h1 : "Strings.B" ∉ fieldsOf pfx) (h2 : "Message" ∉ fieldsOf pfx) :
+    ItInv pj pfx i' (advEnv e pfx i' pj) := by
+  refine ⟨?_, ?_, ?_⟩
+  · unfold advEnv
+    rw [iterAt_set_ne _ _ _ _ h2, iterAt_set_ne _ _ _ _ h1]
+    exact get_setIter_self _ _ _ hd
+  · simp [advEnv, Env.get_set]
+  · simp [advEnv, Env.get_set]
+
+theorem get_advEnv (e : Env) (pfx : String) (i' : Iter) (pj : PJ) (k : String) (hk : k ∉ itKeys pfx) :
+    (advEnv e pfx i' pj).get k = e.get k := by
+  simp only [itKeys, List.mem_cons, not_or] at hk
+  obtain ⟨k1, k2, k3⟩ := hk
+  unfold advEnv
+  rw [Env.get_set_ne _ _ (Ne.symm k2), Env.get_set_ne _ _ (Ne.symm k1)]
+  exact get_setIter_ne _ _ _ _ (by simpa [fieldsOf] using k3)
+
+/-- `tgt = pfx.Advance()` as a statement -/
+theorem exec1_advance (pj : PJ) (s : St) (tgt pfx : String) (htgt : (tgt == "_") = false) (i : Iter) (f : Nat)
+    (hl : i.lim ≤ pj.tape.size) (ht : s.tape = pj.tape) (h : ItInv pj pfx i s.env) (hf : i.lim + 3 ≤ f) :
+    match i.advance pj with
+    | .ok (i', t) => exec1 goFuns (f + 1) (.callAssign [tgt] pfx "Iter.Advance" [] []) s =
+        .normal ⟨(advEnv s.env pfx i' pj).set tgt (.u8 t), pj.tape⟩
+    | .panic => exec1 goFuns (f + 1) (.callAssign [tgt] pfx "Iter.Advance" [] []) s = .panic
+    | _ => False := by
+  have hc := callFun_advance pj s pfx i f hl ht h.it h.sb h.ms hf
+  revert hc
+  cases i.advance pj with
+  | ok r =>
+    obtain ⟨i', t⟩ := r
+    intro hc
+    simp only [] at hc ⊢
+    rw [exec1, hc]
+    simp [assignTargets, htgt, advEnv]
+  | panic => intro hc; simp only [] at hc ⊢; rw [exec1, hc]
+  | error _ => exact fun h => h
+  | diverge => exact fun h => h
+
+/-- the callback log -/
+def logOf (e : Env) : List Int := match e.get "fn.log" with | some (.ints l) => l | _ => []
+
+theorem logOf_congr {e e' : Env} (h : e'.get "fn.log" = e.get "fn.log") : logOf e' = logOf e := by
+  unfold logOf; rw [h]
+
+theorem logOf_set (e : Env) (l : List Int) : logOf (e.set "fn.log" (.ints l)) = l := by
+  simp [logOf, Env.get_set]
+
+/-- what the log records of an iterator handed to a callback -/
+def encIter (i : Iter) : List Int := [i.off, i.addNext, i.cur.toNat, i.t.toNat, i.lim]
+
+theorem exec1_cb_i (e : Env) (tape : Array UInt64) (fuel : Nat) (i : Iter) (hI : iterAt e "i" = some i) :
+    exec1 goFuns fuel (.cb "_" "fn" [.v "i.off", .v "i.addNext", .v "i.cur", .v "i.t", .v "i.lim"]) ⟨e, tape⟩ =
+      .normal ⟨e.set "fn.log" (.ints (logOf e ++ encIter i)), tape⟩ := by
+  obtain ⟨g1, g2, g3, g4, g5⟩ := iterAt_get_i _ _ hI
+  simp [g1, g2, g3, g4, g5, valToInt, logOf, encIter]
+  rfl
+
+theorem exec1_cbq_i (e : Env) (tape : Array UInt64) (fuel : Nat) (i : Iter) (r : Bool) (rest : List Bool)
+    (hI : iterAt e "i" = some i) (hR : e.get "fn.results" = some (.bools (r :: rest))) :
+    exec1 goFuns fuel (.cb "#fn" "fn" [.v "i.off", .v "i.addNext", .v "i.cur", .v "i.t", .v "i.lim"]) ⟨e, tape⟩ =
+      .normal ⟨((e.set "fn.log" (.ints (logOf e ++ encIter i))).set "fn.results" (.bools rest)).set "#fn" (.bool r),
+        tape⟩ := by
+  obtain ⟨g1, g2, g3, g4, g5⟩ := iterAt_get_i _ _ hI
+  simp [g1, g2, g3, g4, g5, hR, valToInt, logOf, encIter]
+  rfl
+
 end SJ.GoDelete
